@@ -23,3 +23,13 @@ package graphdb
 //@   site call insert: assert arg(2) == chanID && arg(3).upd1Time == ret(Unix, 4) && arg(3).upd2Time == ret(Unix, 5) &&
 //@        arg(3).flags == ret(packRejectFlags)
 //@   site call packRejectFlags: assert arg(0) == exists && arg(1) == isZombie
+//@
+//@ // ---- the graph cache is what the pathfinder prices routes with: after a policy update the cached inbound fee of the channel IS the
+//@ // ---- fee of the new policy - zero when the policy carries none (finding F26: a withdrawn inbound fee stayed in the cache)
+//@ func (c *GraphCache) UpdatePolicy$1
+//@   props C19
+//@   loop * havoc
+//@   site store DirectedChannel.InboundFee: assert value.BaseFee == ite(policy.InboundFee.isSome, policy.InboundFee.some.BaseFee, 0) &&
+//@        value.FeeRate == ite(policy.InboundFee.isSome, policy.InboundFee.some.FeeRate, 0)
+//@   site store DirectedChannel.OutPolicySet: assert value && channel.IsNode1 == policy.IsNode1
+//@   site store DirectedChannel.InPolicy: assert value == policy && channel.IsNode1 != policy.IsNode1
